@@ -675,8 +675,20 @@ func genTree(r *vh.Rand, tier string, n int) []in {
 			i.TContent = append(i.TContent, tc)
 		}
 		if r.Chance(1, 30) {
-			i.TContent = append(i.TContent, tcontent{Path: r.Pick([]string{"snap.foo.d", "a/snap.foo.d/x", "x.png/y"}),
-				Content: []want{{Name: "snap.foo.a", Kind: "reg", Content: "alpha", Mode: 0644}}})
+			// a directory path with a component matching the globs (rejected by the validity check). Only used when it
+			// does match: otherwise `x.png/y` could ask MkdirAll to create a directory below an existing FILE x.png, an
+			// error path that the model does not have (see assumptions)
+			bad := r.Pick([]string{"snap.foo.d", "a/snap.foo.d/x", "x.png/y"})
+			matches := false
+			for _, comp := range strings.Split(bad, "/") {
+				if matchAny(i.Globs, comp) {
+					matches = true
+				}
+			}
+			if matches {
+				i.TContent = append(i.TContent, tcontent{Path: bad,
+					Content: []want{{Name: "snap.foo.a", Kind: "reg", Content: "alpha", Mode: 0644}}})
+			}
 		} else if r.Chance(1, 30) {
 			i.TContent = append(i.TContent, tcontent{Path: "a", Content: []want{{Name: r.Pick([]string{"zzz-nomatch", "sub/snap.foo.a"}), Kind: "reg", Content: "alpha", Mode: 0644}}})
 		}
